@@ -15,7 +15,7 @@ use serde_json::{json, Value};
 use std::cell::Cell;
 use std::collections::HashMap;
 
-pub const RULE: &str = "valid positions biased to small quiescence trees (endgames 3..8 men, playout positions, placements <=18 men, motifs incl. in-check roots, single-move roots, roots next to mate/stalemate); configurations: (a) find_best_move(p,d,None) on a fresh Searcher, d in 1..3 (public API, iterative deepening); (b) verif_search_fixed(p,d), d in 4..5 on <=6 men, judged only if the deeper-entry-reuse counter is 0. Oracle: plain minimax V(p,d) over the reference rules with the engine's own evaluation at quiescence leaves (no pruning/ordering/caching), exact integer equality (scores beyond +-32767 as WON/LOST); returned move must be legal and attain V; every table entry left behind whose key matches a tree position must be a true (depth,bound,score) claim about V. Cases whose reference tree exceeds the node cap are excluded and counted. Non-trivial = root has >=2 legal moves, V not WON/LOST, >=1 beta cut-off, and for d>=2 >=1 table probe that found an entry; distinct by (FEN, depth, config).";
+pub const RULE: &str = "valid positions biased to small quiescence trees (endgames 3..8 men, playout positions, placements <=18 men, motifs incl. in-check roots, single-move roots, roots next to mate/stalemate); configurations: (a) find_best_move(p,d,None) on a fresh Searcher, d in 1..3 (public API, iterative deepening); (b) verif_search_fixed(p,d), d in 4..5 on <=6 men, judged only if the deeper-entry-reuse counter is 0; (c) part promotion-grid, ENUMERATED: every K+P(seventh) v K ending with both kings within two squares of the pawn / promotion square, mover to move at d=2,3 and the other side to move at d=3 (thorough: 4), same oracle (an under-promotion being the only best move is counted). Oracle: plain minimax V(p,d) over the reference rules with the engine's own evaluation at quiescence leaves (no pruning/ordering/caching), exact integer equality (scores beyond +-32767 as WON/LOST); returned move must be legal and attain V; every table entry left behind whose key matches a tree position must be a true (depth,bound,score) claim about V. Cases whose reference tree exceeds the node cap are excluded and counted. Non-trivial = root has >=2 legal moves, V not WON/LOST, >=1 beta cut-off, and for d>=2 >=1 table probe that found an entry; distinct by (FEN, depth, config).";
 
 thread_local! {
     pub static REF_CAP: Cell<u64> = Cell::new(300_000);
@@ -252,6 +252,78 @@ pub fn judge(p: &Pos, d: u8, fixed: bool, kind: &str, stats: &mut Stats) -> Verd
     Ok(())
 }
 
+/// Every ending "king and pawn on the seventh against king" with both kings within two squares
+/// of the pawn / the promotion square, either side to move: the family in which the choice of
+/// the promotion piece decides the value (a queen stalemates, a rook mates).  Enumerated rather
+/// than sampled: the deciding positions are a handful out of thousands.
+pub fn promotion_grid(tier: Tier) -> Vec<(Pos, u8)> {
+    use refchess::{sq_of, Color, Kind};
+    let mut out = Vec::new();
+    for us in [Color::W, Color::B] {
+        let them = us.other();
+        let (pr, qr) = if us == Color::W { (6, 7) } else { (1, 0) };
+        for pf in 0..8 {
+            for ekf in pf - 2..=pf + 2 {
+                for ekr in [qr, if qr == 7 { 6 } else { 1 }, if qr == 7 { 5 } else { 2 }] {
+                    for okf in pf - 2..=pf + 2 {
+                        for okd in 0..=2 {
+                            let okr = if us == Color::W { pr - okd } else { pr + okd };
+                            let (Some(ps), Some(ek), Some(ok)) = (sq_of(pf, pr), sq_of(ekf, ekr), sq_of(okf, okr)) else { continue };
+                            if ps == ek || ps == ok || ek == ok {
+                                continue;
+                            }
+                            for stm in [us, them] {
+                                let mut p = Pos::empty();
+                                p.sq[ps as usize] = Some((us, Kind::P));
+                                p.sq[ek as usize] = Some((them, Kind::K));
+                                p.sq[ok as usize] = Some((us, Kind::K));
+                                p.stm = stm;
+                                if !p.is_valid() {
+                                    continue;
+                                }
+                                if stm == us {
+                                    out.push((p.clone(), 2));
+                                    out.push((p, 3));
+                                } else {
+                                    out.push((p.clone(), 3));
+                                    if tier == Tier::Thorough {
+                                        out.push((p, 4));
+                                    }
+                                }
+                            }
+                        }
+                    }
+                }
+            }
+        }
+    }
+    out
+}
+
+/// Grid case: the general oracle, plus the measurement "an under-promotion is the only best move".
+fn check_grid(item: &(Pos, u8), stats: &mut Stats) -> Verdict {
+    let (p, d) = item;
+    judge(p, *d, false, "promotion-grid", stats)?;
+    if p.legal_moves().iter().any(|m| matches!(m.promo, Some(k) if k != refchess::Kind::Q)) {
+        let mut rs = RefSearch::new(REF_CAP.with(|c| c.get()));
+        let mut best_under = LOST;
+        let mut best_other = LOST;
+        for m in p.legal_moves() {
+            let Ok(v) = rs.move_value(p, m, *d) else { return Ok(()) };
+            if matches!(m.promo, Some(k) if k != refchess::Kind::Q) {
+                best_under = best_under.max(v);
+            } else {
+                best_other = best_other.max(v);
+            }
+        }
+        if best_under > best_other {
+            stats.class("grid_root_underpromotion_is_the_only_best_move");
+            stats.nontrivial(&(p.fen4(), *d, "underpromotion"));
+        }
+    }
+    Ok(())
+}
+
 pub fn run(tier: Tier, seed: u64, known: &Known) -> PropRun {
     let mut run = PropRun::new("exploration", RULE);
     run.assumptions = vec![
@@ -265,6 +337,17 @@ pub fn run(tier: Tier, seed: u64, known: &Known) -> PropRun {
     let (st, fl) = run_part(&part, seed, known, |b, st| {
         REF_CAP.with(|c| c.set(cap));
         check(b, st)
+    });
+    run.stats.merge(st);
+    run.failure = fl;
+    if run.failure.is_some() {
+        return run;
+    }
+    let grid = promotion_grid(tier);
+    run.stats.class_n("promotion_grid_cases_enumerated", grid.len() as u64);
+    let (st, fl) = crate::runner::run_enumerated("promotion-grid", &grid, threads(), seed, known, |it, st| {
+        REF_CAP.with(|c| c.set(cap));
+        check_grid(it, st)
     });
     run.stats.merge(st);
     run.failure = fl;
